@@ -966,6 +966,12 @@ struct Runner {
     void run() {
         g.reset(new G((size_t)plan.n0));
         m.n = (unsigned)plan.n0;
+        if (plan.c("hub", 0) > 0) res.probes.inc("runs_large_with_hub");
+        if (plan.c("long", 0)) res.probes.inc("runs_very_long_history");
+        if (extremeM) res.probes.inc("runs_extreme_multiplicities");
+        if (plan.c("huge", 0)) res.probes.inc("runs_huge_shared_graph");
+        if (noModel) res.probes.inc("runs_forced_mix_without_model");
+        if (plan.c("nmax", 6) == 12) res.probes.inc("runs_medium_size_bound");
         if (m.n == 0) res.probes.inc("size0_start");
         if (m.n == 1) res.probes.inc("size1_start");
         try {
